@@ -227,7 +227,7 @@ def run_tlc(module, cfg_path, workdir, workers=NPROC, simulate=None, depth=None,
         if m2:
             res.generated = int(m2.group(1))
             res.distinct = res.distinct or res.generated
-    if re.search(r"Error: (Invariant|Action property|Temporal properties|Deadlock|The postcondition)|is violated|Error: The behavior up to", txt):
+    if re.search(r"Error: (Invariant|Action property|Temporal properties|Deadlock|The postcondition)|is violated|was violated|Error: The behavior up to|Error: The following behavior constitutes a counter-example", txt):
         i = txt.find("Error:")
         res.violation = txt[i:i + 6000]
     elif "Error:" in txt or (res.rc not in (0,) and res.error is None and not m and not simulate):
@@ -689,3 +689,111 @@ def linearise(histories, consts, batch=200, timeout=900, par=8):
                 if rest:
                     todo.append(rest)
     return states, trans, rejections
+
+
+def run_wprun(scenarios, mode="random", runs=20, preempt=2, nproc=NPROC, timeout=1800):
+    """Executes worker-pool scenarios with cmd/wprun, one process per scenario (restarted after a hang)."""
+    exe = build("wprun")
+    wd = scratch("wp")
+    try:
+        path = os.path.join(wd, "sc.ndjson")
+        with open(path, "w") as f:
+            for s in scenarios:
+                f.write(json.dumps(s) + "\n")
+        results = []
+        running = []
+        pending = list(range(len(scenarios)))
+        t0 = time.time()
+        restarts = {}
+        while pending or running:
+            while pending and len(running) < nproc:
+                i = pending.pop(0)
+                outp = os.path.join(wd, "ex%d_%d.ndjson" % (i, restarts.get(i, 0)))
+                fh = open(outp, "w")
+                p = subprocess.Popen([exe, "-in", path, "-mode", mode, "-runs", str(runs), "-preempt", str(preempt),
+                                      "-seed", str(seed() + 7919 * restarts.get(i, 0)), "-from", str(i), "-count", "1"],
+                                     stdout=fh, stderr=subprocess.PIPE, env=GOENV)
+                running.append((p, fh, outp, i))
+            time.sleep(0.02)
+            still = []
+            for (p, fh, outp, i) in running:
+                if p.poll() is None:
+                    if time.time() - t0 > timeout:
+                        p.kill()
+                        raise Inconclusive("worker pool executions timed out")
+                    still.append((p, fh, outp, i))
+                    continue
+                fh.close()
+                results.extend(json.loads(l) for l in open(outp) if l.strip())
+                if p.returncode == 3 and restarts.get(i, 0) < 3 and mode == "random":
+                    restarts[i] = restarts.get(i, 0) + 1
+                    pending.append(i)
+                elif p.returncode not in (0, 3):
+                    results.append({"scenario": scenarios[i], "mode": mode, "outcome": "crash", "detail": p.stderr.read().decode(errors="replace")[-3000:],
+                                    "events": [], "problems": [], "executed": [], "accepted": []})
+            running = still
+        return results
+    finally:
+        shutil.rmtree(wd, ignore_errors=True)
+
+
+def validate_event_traces(module, consts, traces, reset, invariants=(), batch=100, timeout=600):
+    """Validates event sequences (lists of dicts) against a trace specification with silent steps (HW register).
+    Returns (states, transitions, n_accepted, rejected: [(trace index, event index)], invariant_violations: [(trace index, text)])."""
+    states = trans = acc = 0
+    rejected, inv = [], []
+    todo = [list(range(i, min(i + batch, len(traces)))) for i in range(0, len(traces), batch)]
+    while todo:
+        cur = todo.pop(0)
+        wd = scratch("tv")
+        try:
+            index = []
+            with open(os.path.join(wd, "traces.ndjson"), "w") as out:
+                for n, ti in enumerate(cur):
+                    if n > 0:
+                        out.write(json.dumps(reset) + "\n")
+                        index.append((ti, -1))
+                    for ei, ev in enumerate(traces[ti]):
+                        out.write(json.dumps(ev) + "\n")
+                        index.append((ti, ei))
+            if not index:
+                continue
+            c = dict(consts)
+            c["TraceFile"] = "traces.ndjson"
+            cfg = os.path.join(wd, "t.cfg")
+            write_cfg(cfg, c, init="TInit", next_="TNext", constraint="HW", postcondition="Accepted", invariants=invariants)
+            r = run_tlc(module, cfg, wd, workers=1, timeout=timeout, heap="2g")
+            states += r.distinct
+            trans += r.generated
+            txt = open(r.out_path).read()
+            m = re.search(r'"REJECTED_AT",\s*(\d+)', txt)
+            mi = re.search(r"Error: Invariant (\w+) is violated", txt)
+            if mi:
+                # which trace: the state printed last carries l
+                ls = re.findall(r"/\\ l = (\d+)", txt)
+                at = int(ls[-1]) if ls else 1
+                ti, ei = index[min(at, len(index)) - 1]
+                inv.append((ti, mi.group(1)))
+                pos = cur.index(ti)
+                acc += pos
+                if cur[pos + 1:]:
+                    todo.insert(0, cur[pos + 1:])
+                continue
+            if m:
+                at = int(m.group(1))
+                if at > len(index):
+                    acc += len(cur)
+                    continue
+                ti, ei = index[at - 1]
+                rejected.append((ti, ei))
+                pos = cur.index(ti)
+                acc += pos
+                if cur[pos + 1:]:
+                    todo.insert(0, cur[pos + 1:])
+                continue
+            if r.error or r.violation:
+                raise Inconclusive("trace validation failed to run: %s" % ((r.error or r.violation)[:800]))
+            acc += len(cur)
+        finally:
+            shutil.rmtree(wd, ignore_errors=True)
+    return states, trans, acc, rejected, inv
